@@ -34,6 +34,9 @@ def run(cx):
     inst_emit_guards(cx, "C11.y")
     from props.shared import ack_queue_discipline
     ack_queue_discipline(cx, "C11.z")
+    # "or pinned at its minimum rate": the application's ceiling is clamped onto the rate, never the rate onto the ceiling
+    from props.C13 import ceiling_clamp
+    ceiling_clamp(cx, "C11.A")
     from props.shared import ack_processing_presence, dispatch_table
     ack_processing_presence(cx, "C11.h")
     dispatch_table(cx, "C11.i", only={"DataFrame", "SyncFrame", "AckFrame"})
